@@ -588,6 +588,14 @@ class Kernel:
             if ta != tb or ta not in ("arr", "barr"):
                 raise Unsupported(f"np.array_equal of a {ta} and a {tb}")
             return "bool", f"({xa} == {xb})", ba + bb
+        if isinstance(n.func, ast.Attribute) and n.func.attr == "astype" and len(n.args) == 1 and not n.keywords and \
+                ast.unparse(n.args[0]) in ("np.int64", "numpy.int64", "np.int32", "numpy.int32", "'int64'", "'int32'"):
+            # an integer array converted to a signed integer dtype: ints are unbounded in the translation, so the conversion
+            # is the identity (fixed width is not modelled; DESIGN 1.4)
+            t, x, b = self.expr(n.func.value, defined)
+            if t != "arr":
+                raise Unsupported(f"astype of a {t}")
+            return "arr", x, b
         if isinstance(n.func, ast.Attribute) and n.func.attr in ("argmin", "argmax") and not n.args and not n.keywords:
             t, x, b = self.expr(n.func.value, defined)
             if t != "arr":
